@@ -103,7 +103,7 @@ Proof.
       eapply IH; [| exact Hnd' | | exact E3].
       * apply (remove_inv B s log (t_id t) uid u (GDropped (t_id t) uid)); auto.
       * apply Hrest. reflexivity.
-    + destruct (negb ((t_method t =? 0) || (t_method t =? 1)));
+    + destruct (negb (payable_method (t_method t)));
         [inversion Hsl; subst; rewrite app_nil_r; assumption|].
       destruct (pay_all (t_method t) (t_id t) (u_denom u) (s_bal s) faults (payout_amounts u)) as [[l'|] faults'] eqn:Ep.
       * destruct (settle_loop t h recs _ faults') as [[s4 f4] g4] eqn:E4.
